@@ -104,14 +104,21 @@ def make_probes(decl, schema, cat=None):
                     others = [u for u in cat[ut] if u and u != pref]
                     if others:
                         u = others[(len(name) + len(others)) % len(others)]
-                        for kind, v in (('above-max-other-unit', hi + 0.05 * (hi - lo) + 1e-6), ('below-min-other-unit', lo - 0.05 * (hi - lo) - 1e-6)):
+                        for kind, v in (('above-max-other-unit', hi + 0.05 * (hi - lo) + 1e-6), ('below-min-other-unit', lo - 0.05 * (hi - lo) - 1e-6),
+                                        # a few parts in ten million outside: a converter that rounds the converted number
+                                        # must not pull it onto the bound
+                                        ('just-above-max-other-unit', hi + 3e-7 * max(abs(hi), abs(hi - lo))),
+                                        ('just-below-min-other-unit', lo - 3e-7 * max(abs(lo), abs(hi - lo)))):
                             try:
                                 conv = U.convert(v, pref, u)
                                 back = U.convert(conv, u, pref)
                             except ValueError:
                                 continue
-                            if math.isfinite(conv) and abs(back - v) <= 1e-9 * max(1.0, abs(v)):
-                                probes.append((name, v, kind, dict(dom, text=f'{conv!r} {u}', unit=u)))
+                            if not math.isfinite(conv) or abs(back - v) > 1e-9 * max(1.0, abs(v)):
+                                continue
+                            if kind.startswith('just') and not (back > hi + 1e-7 * max(abs(hi), abs(hi - lo)) or back < lo - 1e-7 * max(abs(lo), abs(hi - lo))):
+                                continue
+                            probes.append((name, v, kind, dict(dom, text=f'{conv!r} {u}', unit=u)))
                 if abs(hi) < UNBOUNDED:
                     probes.append((name, hi, 'max', dom))
                     probes.append((name, hi + _eps(hi), 'above-max', dom))
@@ -148,7 +155,7 @@ def make_probes(decl, schema, cat=None):
     for name, val, kind, dom in probes:
         d = dom.get('default')
         try:
-            if d is not None and float(getattr(d, 'int_value', d)) == float(val) and kind in ('below-min', 'above-max', 'non-member', 'far-below-min', 'far-above-max', 'above-max-other-unit', 'below-min-other-unit'):
+            if d is not None and float(getattr(d, 'int_value', d)) == float(val) and kind in ('below-min', 'above-max', 'non-member', 'far-below-min', 'far-above-max', 'above-max-other-unit', 'below-min-other-unit', 'just-above-max-other-unit', 'just-below-min-other-unit'):
                 continue                       # the documented 'not provided' sentinel
         except (TypeError, ValueError):
             pass
